@@ -32,7 +32,114 @@ FAULTS_V3 = ["error_packet", "hs_drop_all", "hs_drop_some", "hs_error", "hs_garb
              "hs_close", "hs_late"]
 
 
+def run_pair(plan):
+    """Two exchanges overlap on one object while some transmissions go unanswered.  Every write is attributed
+    to its exchange by its instant (an exchange writes at its start and then every 2 s): it must carry that
+    exchange's frame, an exchange never writes more than 3 times, and one that gave up used all 3."""
+    s = Session(plan, max_iterations=6000)
+    w = s.world
+    dev = s.dev
+    res = Result()
+    delta = plan["delta"]
+
+    async def main(w):
+        ac = s.make_clients()[0]
+        if s.version == 3:
+            o = await s.do({"op": "auth"})
+            if o.kind != "ok":
+                res.fail(f"genuine handshake raised {o.exc_type}", repr(o.exc))
+                return
+        o = await s.do({"op": "refresh"})
+        if o.kind != "ok" or not ac.online:
+            res.fail("plain refresh failed", repr(o))
+            return
+        await asyncio.sleep(0.5)
+        dev.script = [({} if a else {"drop": True}) for a in plan["answers"]]
+        n0 = len(dev.log)
+        from simkit.world import capture
+        t_a = w.loop.time()
+
+        async def second():
+            await asyncio.sleep(delta)
+            if plan["second"] == "apply":
+                ac.target_temperature = 21.5
+                return await capture(w, ac.apply())
+            if plan["second"] == "refresh":
+                return await capture(w, ac.refresh())
+            return await capture(w, ac._lan.send(w.ns.command.GetCapabilitiesCommand().tobytes(), retries=3))
+        oa, ob = await asyncio.gather(capture(w, ac.refresh()), second())
+        dev.script = []
+        w.fire("two_exchanges_overlap_on_one_object")
+        for o in (oa, ob):
+            if o.kind != "ok" and not isinstance(o.exc, (TimeoutError, asyncio.TimeoutError, w.ns.lan.ProtocolError)):
+                # observation, not a verdict (DESIGN 14.4): when one exchange exhausts its retries and drops the
+                # connection, the other one's next step fails with AttributeError on the pinned tree; overlapping
+                # use of one object is outside C08's quantifier, only the wire-level contract is judged here
+                w.probe("overlapping_exchange_raised_" + str(o.exc_type))
+        tx = [e for e in dev.log[n0:] if e["kind"] == "v2_req"]
+        t_b = t_a + delta
+        by = {"a": [], "b": []}
+        for e in tx:
+            ka = (e["t"] - t_a) / 2.0
+            kb = (e["t"] - t_b) / 2.0
+            is_a = abs(ka - round(ka)) < 1e-6 and 0 <= round(ka) <= 2
+            is_b = abs(kb - round(kb)) < 1e-6 and 0 <= round(kb) <= 2
+            if is_a == is_b:
+                w.probe("write_not_attributable")
+                return            # (connect latency after a failed exchange etc.): nothing is asserted
+            by["a" if is_a else "b"].append(e)
+        for name, lst in by.items():
+            if len(lst) > 3:
+                res.fail("request transmitted more than `retries` times", f"exchange {name}: {len(lst)}")
+                return
+            if len({e["frame"] for e in lst}) > 1:
+                res.fail("retransmitted frame differs from the original",
+                         f"exchange {name} wrote {[e['frame'].hex()[20:26] for e in lst]}")
+                return
+        if by["a"] and by["b"] and by["a"][0]["frame"] == by["b"][0]["frame"] and plan["second"] != "refresh":
+            res.fail("retransmitted frame differs from the original", "both exchanges wrote the same frame")
+            return
+        # giving up is only allowed after all three transmissions
+        for name, o, lst in (("a", oa, by["a"]), ("b", ob, by["b"])):
+            gave_up = (o.kind != "ok") if (name == "b" and plan["second"] == "send") else False
+            if gave_up and isinstance(o.exc, (TimeoutError, asyncio.TimeoutError)) and len(lst) < 3:
+                res.fail("gave up before using all retries", f"exchange {name}: {len(lst)} of 3")
+                return
+        if not ac.online:
+            # both device-level exchanges are over; at least one response was delivered to this object iff the
+            # device answered something
+            answered = [e for e in dev.log[n0:] if e["kind"] == "response"]
+            total = len(tx)
+            if len(by["a"]) < 3 and len(by["b"]) < 3 and total and not answered:
+                res.fail("gave up before using all retries", f"a={len(by['a'])} b={len(by['b'])}")
+                return
+        # afterwards a plain exchange works
+        await asyncio.sleep(6.5)
+        o = await s.do({"op": "refresh"})
+        if o.kind != "ok" or not ac.online:
+            await asyncio.sleep(0.5)
+            o = await s.do({"op": "refresh"})
+        if o.kind != "ok" or not ac.online:
+            res.fail("recovery: fault-free exchange after overlapping exchanges failed (offline)", repr(o))
+            return
+        bad = compare_view(ac, dev.state, dev.state_len)
+        if bad:
+            res.fail("recovery: wrong state after recovery: " + bad[0][0], repr(bad))
+
+    try:
+        w.run(main)
+    except (SimDeadlock, SimStepLimit) as e:
+        res.fail(f"liveness: {type(e).__name__}", str(e))
+    res.take(w)
+    res.add_fired(dev.fired)
+    res.key = res.digest
+    res.nontrivial = not all(plan["answers"][:4])
+    return res
+
+
 def run(plan):
+    if plan.get("mode") == "pair":
+        return run_pair(plan)
     s = Session(plan, max_iterations=3000 + 12 * plan.get("presends", 0))
     w = s.world
     dev = s.dev
@@ -144,6 +251,13 @@ def run(plan):
             api = fx.get("api", "send")
             if fx.get("pre_close"):
                 await s.do({"op": "dev_close", "rst": fx.get("pre_rst", False)})
+            if fx.get("expiry_in") is not None and version == 3:
+                # the 12 h key lifetime ends inside this exchange's retry windows: the session was valid when the
+                # request was first written, and the device keeps answering under it
+                hs = [e for e in dev.log if e["kind"] == "hs_reply" and e.get("genuine")]
+                if hs:
+                    await asyncio.sleep(max(0.0, hs[-1]["t"] + 12 * 3600 - fx["expiry_in"] - w.loop.time()))
+                    w.fire("key_lifetime_ends_inside_the_retry_windows")
             op = {"op": "send", "frame": frame, "retries": r} if api == "send" else {"op": "refresh"}
             if api != "send":
                 r = 3
@@ -369,6 +483,27 @@ def space(tier):
         p["faults"][0]["api"] = "send" if j % 3 else "refresh"
         return p
     sp.add("timing", 12000 if tier == "quick" else 400_000, timing)
+
+    def timing_expiry(j, rng):
+        p = gen_plan(j, rng, ["timing"])
+        p["config"]["version"] = 3
+        p.pop("lifetime", None)
+        fx = p["faults"][0]
+        fx["api"] = "send" if j % 3 else "refresh"
+        fx["expiry_in"] = rng.choice([0.01, 0.5, 1.0, 2.5, 3.9, 5.0])
+        p["settle"] = 8.0        # late replies must have drained: the recovery exchange starts with a handshake
+        return p
+    sp.add("timing_key_lifetime_straddle", 1500 if tier == "quick" else 60_000, timing_expiry)
+
+    def pair(j, rng):
+        version = rng.choice([2, 3])
+        delta = rng.choice([0.1, 0.5, 1.0, 1.5, 2.5, 3.3])
+        n = rng.randint(2, 6)
+        return {"mode": "pair", "config": {"version": version, "token": rand_bytes(rng, 64).hex(),
+                                           "key": rand_bytes(rng, 32).hex(), "device_id": rng.getrandbits(48)},
+                "delta": delta, "second": rng.choice(["apply", "refresh", "send"]),
+                "answers": [rng.random() < 0.5 for _ in range(n)] + [True] * 6}
+    sp.add("two_exchanges_overlap_on_one_object", 3000 if tier == "quick" else 200_000, pair)
     allk = FAULTS_DATA + FAULTS_V3
     pairs = [(a, b) for a in allk for b in allk]
 
@@ -387,6 +522,13 @@ def space(tier):
 
 def simplify(plan):
     import json
+    if plan.get("mode") == "pair":
+        for i, a in enumerate(plan["answers"]):
+            if not a:
+                c = json.loads(json.dumps(plan))
+                c["answers"][i] = True
+                yield c
+        return
     for i in range(len(plan["faults"])):
         c = json.loads(json.dumps(plan))
         del c["faults"][i]
